@@ -223,9 +223,13 @@ pub fn enum_def(e: &EnumSpec, o: &EnumOpts) -> String {
     }
     s.push_str("//@item\n");
     if !e.macro_args.is_empty() {
-        let ps: Vec<String> = e.macro_args.iter().map(|(n, k, _)| format!("${}:{}", n, k)).collect();
-        let _ = writeln!(s, "macro_rules! mk_item {{ ({}) => {{", ps.join(", "));
+        let _ = writeln!(s, "macro_rules! mk_item {{ (@@PARAMS@@) => {{");
     }
+    // "lits": the string literals of the variant attributes come from the macro's caller; "fids": the names of the
+    // named fields do. Either way the literal and the field it mentions carry different hygiene contexts.
+    let lits_mode = e.macro_args.iter().any(|(n, _, _)| n == "lits");
+    let fids_mode = e.macro_args.iter().any(|(n, _, _)| n == "fids");
+    let mut late: Vec<(String, String, String)> = vec![];
     let name_is_fragment = e.macro_args.iter().any(|(n, k, _)| n == "n" && k == "ident");
     let shown_name = if name_is_fragment { "$n" } else { o.name };
     let noise = |s: &mut String, slot: u8| {
@@ -306,7 +310,20 @@ pub fn enum_def(e: &EnumSpec, o: &EnumOpts) -> String {
                     let _ = writeln!(s, "    {}", n);
                 }
             }
-            let items: Vec<String> = grp.iter().map(|a| vattr(a, &dw_fn_name(vi, 0))).collect();
+            let mut items: Vec<String> = grp.iter().map(|a| vattr(a, &dw_fn_name(vi, 0))).collect();
+            if lits_mode {
+                for (a, it) in grp.iter().zip(items.iter_mut()) {
+                    let (key, text) = match a {
+                        VAttr::ToString(t) => ("to_string", t),
+                        VAttr::Serialize(t) => ("serialize", t),
+                        VAttr::Message(t) => ("message", t),
+                        _ => continue,
+                    };
+                    let p = format!("l{}", late.len());
+                    *it = format!("{} = ${}", key, p);
+                    late.push((p, "literal".to_string(), lit(text)));
+                }
+            }
             let _ = writeln!(s, "    #[strum({})]", join_list(&items, salt.wrapping_add(1000 + vi as u64 * 31 + gi as u64)));
         }
         if at >= v.groups.len() {
@@ -338,6 +355,11 @@ pub fn enum_def(e: &EnumSpec, o: &EnumOpts) -> String {
                         } else {
                             String::new()
                         };
+                        if fids_mode {
+                            let p = format!("f{}", late.len());
+                            late.push((p.clone(), "ident".to_string(), f.name.clone().unwrap()));
+                            return format!("{}${}: {}", a, p, f.ty.rust());
+                        }
                         format!("{}{}: {}", a, f.name.as_ref().unwrap(), f.ty.rust())
                     })
                     .collect();
@@ -351,8 +373,11 @@ pub fn enum_def(e: &EnumSpec, o: &EnumOpts) -> String {
     }
     s.push_str("}\n");
     if !e.macro_args.is_empty() {
-        let args: Vec<&str> = e.macro_args.iter().map(|(n, k, a)| if n == "n" && k == "ident" { o.name } else { a.as_str() }).collect();
+        let all: Vec<&(String, String, String)> = e.macro_args.iter().filter(|(n, _, _)| n != "lits" && n != "fids").chain(late.iter()).collect();
+        let args: Vec<&str> = all.iter().map(|(n, k, a)| if n == "n" && k == "ident" { o.name } else { a.as_str() }).collect();
         let _ = writeln!(s, "}} }}\nmk_item!({});", args.join(", "));
+        let ps: Vec<String> = all.iter().map(|(n, k, _)| format!("${}:{}", n, k)).collect();
+        s = s.replacen("@@PARAMS@@", &ps.join(", "), 1);
     }
     s
 }
